@@ -29,7 +29,7 @@ FLOORS = {"quick": {"firings_checked": 20000, "calls": 20000, "calls_at_expiry_i
                        "restart_in_callback": 60000, "stop_in_callback": 10000, "scalar_args_cases": 20000,
                        "auto_restart_cases": 30000, "restart_pending": 80000, "restart_after_fired": 10000,
                        "stops": 60000, "suppressed_by_stop": 20000, "old_expiry_voided": 40000}}
-KEYS = tuple(FLOORS["quick"].keys()) + ("falsy_scalar_args_cases", "big_clock_cases", "long_history_cases")
+KEYS = tuple(FLOORS["quick"].keys()) + ("falsy_scalar_args_cases", "big_clock_cases", "long_history_cases", "rational_clock_cases")
 
 
 def plan(tier):
@@ -81,6 +81,8 @@ def gen_case(rng, i):
             incb[str(n)] = ["stop"]
     case = {"flavour": flavour, "tau0": tau0, "auto": auto, "t0": t0, "argform": argform, "ctrls": ctrls, "incb": incb,
             "horizon": 40, "env_t0": rng.choice([0, 0, 0, 2 ** 30 if flavour == "exact" else 1.7e9])}
+    if flavour == "exact" and case["env_t0"] == 0 and rng.random() < 0.1:
+        case["rational"] = True          # "any positive timeouts": durations that are neither int nor float
     if i % 50 == 3:
         # a long history on ONE timer process: more than a thousand expiries, re-armed by auto-restart or from the
         # callback, nobody restarting it from outside
@@ -90,9 +92,31 @@ def gen_case(rng, i):
     return case
 
 
+def rational(case):
+    """the same case on an exact rational clock: every duration and instant becomes a fractions.Fraction (x * 2/3), so
+    the coincidences of the case are preserved and none of the values is an int or a float"""
+    import copy
+    from fractions import Fraction
+    c = copy.deepcopy(case)
+    q = lambda x: Fraction(x) * Fraction(2, 3)
+    c["tau0"], c["t0"] = q(c["tau0"]), q(c["t0"])
+    for acts in c["ctrls"]:
+        for a in acts:
+            a[0] = q(a[0])
+            if a[1] == "restart":
+                a[2] = q(a[2])
+    for k, act in c["incb"].items():
+        if act[0] == "restart":
+            act[1] = q(act[1])
+    return c
+
+
 def run_case(case, stats):
     K = kern.RealK.load()
     from onl.utils import Timer
+    if case.get("rational"):
+        case = rational(case)
+        stats["rational_clock_cases"] += 1
     Env = kern.make_monenv(K.Environment)
     E0 = case.get("env_t0", 0)
     env = Env(E0)
